@@ -1,0 +1,70 @@
+//go:build verif
+
+// Accessors for the configuration-plumbing checks (socket buffer sizes, dispatched port range).
+// Add-only; nothing here changes behaviour.
+
+package router
+
+import (
+	"net"
+
+	"github.com/scionproto/scion/pkg/addr"
+	"github.com/scionproto/scion/pkg/slayers"
+)
+
+// VerifCfgSetConnOpener installs opener on every underlay provider that the connector's data
+// plane has instantiated so far (the same call the package's own tests make).
+func (c *Connector) VerifCfgSetConnOpener(opener any) {
+	for _, u := range c.DataPlane.underlays {
+		u.SetConnOpener(opener)
+	}
+}
+
+// VerifCfgNumUnderlays returns the number of instantiated underlay providers.
+func (c *Connector) VerifCfgNumUnderlays() int {
+	return len(c.DataPlane.underlays)
+}
+
+// VerifCfgResolveLocalDst decodes raw the way the packet processor does (SCION header, skipped
+// HBH/E2E extensions) and runs resolveLocalDst towards the internal interface. It returns the
+// underlay destination that was set on the packet.
+func (c *Connector) VerifCfgResolveLocalDst(raw []byte) (*net.UDPAddr, error) {
+	var (
+		s   slayers.SCION
+		hbh slayers.HopByHopExtnSkipper
+		e2e slayers.EndToEndExtnSkipper
+	)
+	last, err := decodeLayers(raw, &s, &hbh, &e2e)
+	if err != nil {
+		return nil, err
+	}
+	pkt := &Packet{RawPacket: raw}
+	pkt.egress = 0
+	if err := c.DataPlane.resolveLocalDst(pkt, s, last); err != nil {
+		return nil, err
+	}
+	return (*net.UDPAddr)(pkt.RemoteAddr), nil
+}
+
+// VerifCfgDstScionPort decodes raw like VerifCfgResolveLocalDst and returns dstScionPort.
+func (c *Connector) VerifCfgDstScionPort(raw []byte) (uint16, error) {
+	var (
+		s   slayers.SCION
+		hbh slayers.HopByHopExtnSkipper
+		e2e slayers.EndToEndExtnSkipper
+	)
+	last, err := decodeLayers(raw, &s, &hbh, &e2e)
+	if err != nil {
+		return 0, err
+	}
+	return c.DataPlane.dstScionPort(last)
+}
+
+// VerifCfgResolve calls Resolve on the internal link (interface 0).
+func (c *Connector) VerifCfgResolve(dst addr.Host, port uint16) (*net.UDPAddr, error) {
+	pkt := &Packet{}
+	if err := c.DataPlane.interfaces[0].Resolve(pkt, dst, port); err != nil {
+		return nil, err
+	}
+	return (*net.UDPAddr)(pkt.RemoteAddr), nil
+}
